@@ -172,6 +172,11 @@ def judge_evidence(r, where, viol, counters):
     if len(r.pops) < T:
         viol.append({"mech": "C08/population-history-too-short", "detail": f"{where}: {len(r.pops)} stored populations for {T} iterations"})
         return
+    # the evidence is a sum over the iterations of the run: one ratio (and one variance) per temperature step, no more
+    for k in ("log_norm_ratio", "log_norm_ratio_var"):
+        if len(h[k]) != T:
+            viol.append({"mech": "C08/ratio-series-has-another-length-than-the-schedule", "detail": f"{where}: {len(h[k])} entries in {k} for {T} temperature steps (betas {h['beta']})"})
+            return
     total = 0.0
     var_total = 0.0
     for t in range(T):
